@@ -1,6 +1,8 @@
 package tmpl
 
 import (
+	"go/constant"
+	"regexp"
 	"fmt"
 	"go/ast"
 	"go/token"
@@ -37,6 +39,117 @@ func fnName(fd *ast.FuncDecl) string {
 
 // ---------------------------------------------------------------------------
 // T.names
+
+// stripEmitted removes Go string/rune literals and // comments from a fragment of emitted code.
+func stripEmitted(line string) string {
+	var sb strings.Builder
+	i := 0
+	for i < len(line) {
+		ch := line[i]
+		switch ch {
+		case '"', '\'', '`':
+			q := ch
+			i++
+			for i < len(line) && line[i] != q {
+				if line[i] == '\\' && q != '`' {
+					i++
+				}
+				i++
+			}
+			sb.WriteByte(' ')
+		case '/':
+			if i+1 < len(line) && line[i+1] == '/' {
+				return sb.String()
+			}
+			sb.WriteByte(ch)
+		default:
+			sb.WriteByte(ch)
+		}
+		i++
+	}
+	return sb.String()
+}
+
+// proseRe: four plain words in a row: a message for people (emitted inside a string literal), not a code fragment
+var proseRe = regexp.MustCompile(`[A-Za-z]+ [A-Za-z]+ [A-Za-z]+ [A-Za-z]+`)
+
+var litPkgRe = regexp.MustCompile(`(^|[^A-Za-z0-9_.])(fmt|math|sort|io|binary|bits|utf8|proto|protoreflect|protoiface|protoimpl|protoregistry|runtime|reflect|sync|strings|errors|unsafe|bytes|strconv|atomic)\.[A-Z][A-Za-z0-9_]*`)
+
+// RunImports (T.imports): the templates may name an imported package only through the generated file's import
+// table (g.Ident / GoImportPath.Ident / QualifiedGoIdent). A package name written out in the emitted text is
+// bound to whatever package happens to hold that name in the file: an imported proto package called fmt, math,
+// sort ... takes the plain name when it is referenced first, and the literal then refers to the wrong package.
+func RunImports(c *core.Ctx) {
+	const src = "S0"
+	n := 0
+	for _, rel := range []string{"features/fastreflection", "features/protoc"} {
+		p := c.Pkg(rel)
+		if p == nil {
+			c.Fail("T.anchor", rel, "template package not found", "", src)
+			continue
+		}
+		for _, f := range p.Syntax {
+			for _, d := range f.Decls {
+				fd, ok := d.(*ast.FuncDecl)
+				if !ok || fd.Body == nil {
+					continue
+				}
+				fn := fd.Name.Name
+				var visit func(x ast.Node, inPanic bool)
+				visit = func(x ast.Node, inPanic bool) {
+					ast.Inspect(x, func(y ast.Node) bool {
+						if y == x {
+							return true
+						}
+						switch t := y.(type) {
+						case *ast.CallExpr:
+							// text handed to panic / error constructors is a message for the person running the generator
+							q := core.QualName(core.CalleeObj(p.TypesInfo, t))
+							if id, ok := t.Fun.(*ast.Ident); ok && id.Name == "panic" {
+								q = "panic"
+							}
+							if q == "panic" || q == "fmt.Errorf" || q == "errors.New" {
+								visit(t, true)
+								return false
+							}
+							if isPMethod(core.CalleeObj(p.TypesInfo, t)) {
+								n++
+								line := ""
+								for _, a := range t.Args {
+									if tv, ok := p.TypesInfo.Types[a]; ok && tv.Value != nil && tv.Value.Kind() == constant.String {
+										line += constant.StringVal(tv.Value)
+									} else {
+										line += "\x00"
+									}
+								}
+								if !inPanic {
+									for _, m := range litPkgRe.FindAllStringSubmatch(stripEmitted(line), -1) {
+										c.Fail("T.imports", fmt.Sprintf("%s.%s emits %s", rel, fn, strings.TrimLeft(m[0], " \t(,=!&|+-*/<>{[:;\x00")),
+											"the template writes the package name "+m[2]+" into the generated text instead of using the import table: in a file where another imported package is named "+m[2]+" the reference resolves to the wrong package (or to nothing)", c.PosStr(p.Fset, t.Pos()), src)
+									}
+								}
+								return false
+							}
+						case *ast.BasicLit:
+							// any other string constant of a template function may end up in the output through a helper
+							if t.Kind == token.STRING && !inPanic {
+								if tv, ok := p.TypesInfo.Types[t]; ok && tv.Value != nil && tv.Value.Kind() == constant.String && !proseRe.MatchString(constant.StringVal(tv.Value)) {
+									for _, m := range litPkgRe.FindAllStringSubmatch(stripEmitted(constant.StringVal(tv.Value)), -1) {
+										c.Fail("T.imports", fmt.Sprintf("%s.%s text %s", rel, fn, strings.TrimLeft(m[0], " \t(,=!&|+-*/<>{[:;\x00")),
+											"a code fragment of the template writes the package name "+m[2]+" literally instead of using the import table: in a file where another imported package is named "+m[2]+" the reference resolves to the wrong package (or to nothing)", c.PosStr(p.Fset, t.Pos()), src)
+									}
+								}
+							}
+						}
+						return true
+					})
+				}
+				visit(fd.Body, false)
+			}
+		}
+	}
+	c.Check(n >= 500, "T.imports", "emitted lines scanned", fmt.Sprintf("%d P(...) calls scanned: no package name is written out literally", n), fmt.Sprintf("only %d P(...) calls found", n), "", src)
+}
 
 func RunNames(c *core.Ctx) {
 	const src = "S0"
